@@ -1443,6 +1443,14 @@ int32 matrixUpdateSession(ssl_t *ssl)
         psUnlockMutex(&g_sessionTableLock);
         return PS_FAILURE;
     }
+    if (g_sessionTable[i].cipher == NULL)
+    {
+        /* The entry was invalidated by a fatal alert on another connection
+           that shared it (its id is wiped): it must stay dead, storing our
+           master secret would revive it under an id that was never issued */
+        psUnlockMutex(&g_sessionTableLock);
+        return PS_FAILURE;
+    }
     Memcpy(g_sessionTable[i].masterSecret, ssl->sec.masterSecret,
         SSL_HS_MASTER_SIZE);
     g_sessionTable[i].cipher = ssl->cipher;
